@@ -11,7 +11,9 @@ RULE = ("per zone: (1) for every breakpoint of the transition table (recorded tr
         "query was unrelated; the guarded hint hook reports which (zone, direction, index) states were stored and which probes were "
         "answered from the hint; (2) 2500 (thorough 10000) random API calls on A and on B with independent histories, a separately "
         "drawn query compared after each, every 100th also against a freshly loaded copy; (3) load / query / repeat load / data "
-        "removed / repeat load with a counting data source; failed names (missing, garbage) re-loaded after valid data appears. "
+        "removed / repeat load with a counting data source; failed names (missing, garbage) re-loaded after valid data appears; "
+        "(4) 40 (thorough 300) histories in child processes that change TZDIR/TZ/LOCALTIME between first-time loads and "
+        "local_time_zone() calls, each step predicted from the environment of that moment plus the name cache. "
         "Non-trivial = distinct (zone, direction, hint index) whose use was confirmed by the hook.")
 
 
@@ -45,6 +47,21 @@ def run(prop, tier, seed, replay=None):
         # the hook never fired: the implementation keeps no per-direction index (e.g. hints removed); then the
         # enumeration has nothing hidden to reach and the comparisons stand on their own
         cov["distinct_nontrivial"] = res.stat("C14.table_breakpoints_enumerated")
+    if not replay:
+        # histories that change the process environment between calls (default file data source, child processes):
+        # a first-time load must resolve against the environment of that moment, whatever was called before
+        try:
+            from . import checks_env
+            exe_env = build.build_bin("asan", "envprobe")
+            base_env = build.san_env("asan")
+            for k in ("TZ", "TZDIR", "LOCALTIME"):
+                base_env.pop(k, None)
+            nsteps = checks_env.sequence_leg(chk, cov, exe_env, base_env, chk.workdir, seed, 300 if tier == "thorough" else 40, prop="C14")
+            cov["evaluations"] += nsteps
+            if nsteps == 0:
+                chk.inconclusive_because("environment-history leg observed nothing")
+        except build.BuildError as e:
+            chk.inconclusive_because("build failed: %s" % str(e)[-1500:])
     chk.coverage = cov
     if not replay:
         if stores and not hits:
